@@ -57,13 +57,13 @@ func C10(ctx *core.Ctx) int {
 		"rule": fmt.Sprintf("texts = every derivation of each of the 18 grammar rules within %d non-default choices (in minimal context) + E1 programs + repository samples; "+
 			"per text: 6 uniform layouts, every single-gap deviation from the canonical layout by each of %d gap strings, a trailing comment after every token under 2 layouts, an own-line comment before every token; "+
 			"each formatted once and twice. distinct_nontrivial = number of distinct formatted outputs", budget, len(altGaps)),
-		"samples":                     samples.List,
-		"texts":                       len(texts),
-		"unobservable_format_failed":  unobs,
-		"exhaustive":                  true,
-		"grammar_budget":              budget,
-		"formatter_calls":             evals,
-		"layout_equivalence_classes":  groups,
+		"samples":                    samples.List,
+		"texts":                      len(texts),
+		"unobservable_format_failed": unobs,
+		"exhaustive":                 true,
+		"grammar_budget":             budget,
+		"formatter_calls":            evals,
+		"layout_equivalence_classes": groups,
 	}
 	ctx.Assumes = append(ctx.Assumes,
 		"texts on which Format returns an error or panics are not C10's subject (C09 / C11 report them); they are counted as unobservable",
